@@ -30,6 +30,7 @@ type Spy struct {
 	CountOnly bool // do not store body bytes, only count them (bulk histories)
 	Count     int64
 	plan      []WFault
+	refuseTo  *Req
 }
 
 // ErrInjected is the error returned by injected write faults.
@@ -62,6 +63,9 @@ func (s *Spy) WriteHeader(code int) {
 	sched.Yield(SiteSpyWH)
 	if code < 100 || code > 999 {
 		s.req.ev(EvSpyRefuse, 0, code, "")
+		if s.refuseTo != nil {
+			s.refuseTo.ev(EvSpyRefuse, 0, code, "substitute")
+		}
 		panic("invalid WriteHeader code " + itoa(code))
 	}
 	s.sendStatus(code, false)
